@@ -291,6 +291,7 @@ package database
 //@ pure func elig(r []SearchResult) bool = forall k int :: 0 <= k && k < len(r) ==> eligible(r[k].Command)
 
 //@ func (*Database).rerankWithNLP
+//@   opt overflow yes
 //@   requires db.tfidf != nil && nlp.wfTFIDF(db.tfidf) && resultsOK(db, results) && elig(results)
 //@   modifies results[*]
 //@   ensures[C01.rerank-ok] resultsOK(db, result) && sortedDesc(result) && elig(result)
@@ -350,6 +351,11 @@ package database
 //@   pure
 //@   opt overflow yes
 //@   ensures[C10.candidate-limit] result == candLimit(limit)
+//@ func scaledLimit
+//@   requires factor >= 1
+//@   pure
+//@   opt overflow yes
+//@   ensures[C10.scaled-limit] (limit <= 0 ==> result == 0) && (limit > 0 ==> result >= limit && result <= 9223372036854775807) && (limit > 0 && limit <= 9223372036854775807 / factor ==> result == limit * factor) && (limit > 9223372036854775807 / factor ==> result == 9223372036854775807)
 //@ pure func candLimit(l int) int = l <= 0 ? 0 : (l <= 4611686018427387903 ? 2 * l : 9223372036854775807)
 //@ func (*Database).performFuzzySearch
 //@   modifies nothing
@@ -447,6 +453,7 @@ package database
 //@ pure func dbInv(db *Database) bool = (db.uIndex != nil && db.uIndex.N == len(db.Commands) ==> idxOK(db)) && (db.tfidf != nil ==> nlp.wfTFIDF(db.tfidf)) && cmdIndexOK(db) && (db.embeddingIndex != nil ==> embedding.wfEmb(db.embeddingIndex))
 
 //@ func (*Database).SearchUniversal
+//@   opt overflow yes
 //@   requires dbInv(db)
 //@   defines forall c *Command :: eligible(c) <==> (platOK(c, options) && pipeOK(c, options))
 //@   modifies db.*
@@ -541,9 +548,11 @@ package database
 //@ loop 2
 //@   invariant seen != nil && fresh(seen) && (forall k int :: 0 <= k && k < len(combined) ==> combined[k].Command != nil)
 //@ func (*Database).SearchWithFuzzy
+//@   opt overflow yes
 //@   modifies nothing
 //@   ensures[C01.fuzzy-hybrid-len] len(result) <= effLimit5(options.Limit) && fresh(result) && (forall k int :: 0 <= k && k < len(result) ==> result[k].Command != nil)
 //@ func (*Database).SearchWithNLP
+//@   opt overflow yes
 //@   requires dbInv(db) && (db.tfidf != nil && db.cmdIndex != nil ==> len(db.tfidf.commands) == len(db.Commands))
 //@   modifies nothing
 //@   ensures[C01.nlp-legacy-len] len(result) <= effLimit5(options.Limit)
